@@ -15,6 +15,7 @@ import (
 	"github.com/yaricom/goNEAT/v4/experiment"
 	"github.com/yaricom/goNEAT/v4/neat"
 	"github.com/yaricom/goNEAT/v4/neat/genetics"
+	neatmath "github.com/yaricom/goNEAT/v4/neat/math"
 )
 
 // C17 - evolution is reproducible from the random seed.
@@ -133,7 +134,70 @@ func c17Scenario(seed int64, idx int) (*EvoScenario, int64) {
 		sc.Start, sc.StartSrc = buildFromSnap(ss), sc.StartSrc+" (genes listed out of innovation order)"
 		sc.genesShuffled = true
 	}
+	if idx%4 == 3 {
+		// the list of activation functions comes out of an options file, through the library's own reader, anew for every run: the
+		// same text is the same input. The list names one function twice (configurations merged by hand) beside two others.
+		acts := append([]neatmath.NodeActivationType{}, sc.Opts.NodeActivators...)
+		for len(acts) < 3 {
+			acts = append(acts, scalarActivations[g.Intn(len(scalarActivations))])
+		}
+		for distinct := 0; distinct < 3; {
+			seen := map[neatmath.NodeActivationType]bool{}
+			for _, a := range acts {
+				seen[a] = true
+			}
+			if distinct = len(seen); distinct < 3 {
+				acts = append(acts, scalarActivations[g.Intn(len(scalarActivations))])
+			}
+		}
+		acts = append(acts, acts[g.Intn(len(acts))])
+		g.Shuffle(len(acts), func(i, j int) { acts[i], acts[j] = acts[j], acts[i] })
+		text := c17OptionsTemplate() + "\nnode_activators:\n"
+		for _, a := range acts {
+			name, err := neatmath.NodeActivators.ActivationNameFromType(a)
+			if err != nil {
+				panic("harness: " + err.Error())
+			}
+			text += fmt.Sprintf("  - %s %.3f\n", name, 0.1+float64(g.Intn(900))/1000)
+		}
+		loaded, err := neat.LoadYAMLOptions(strings.NewReader(text))
+		if err != nil {
+			panic("harness: options text not accepted by the reader: " + err.Error())
+		}
+		sc.Opts.NodeActivators, sc.Opts.NodeActivatorsProb = loaded.NodeActivators, loaded.NodeActivatorsProb
+		if sc.Opts.MutateAddNodeProb < 0.15 {
+			sc.Opts.MutateAddNodeProb = 0.15 + 0.2*g.Float64()
+		}
+		sc.activatorsFromFile = true
+	}
 	return sc, int64(splitmix(uint64(cs)+77) >> 1)
+}
+
+var c17Template string
+
+// c17OptionsTemplate is the shipped XOR options file without its list of activation functions
+func c17OptionsTemplate() string {
+	if c17Template == "" {
+		raw, err := os.ReadFile(repoRoot() + "/data/xor_test.neat.yml")
+		if err != nil {
+			panic("harness: " + err.Error())
+		}
+		var keep []string
+		skipping := false
+		for _, line := range strings.Split(string(raw), "\n") {
+			if strings.HasPrefix(line, "node_activators:") {
+				skipping = true
+				continue
+			}
+			if skipping && (strings.HasPrefix(line, "  -") || strings.TrimSpace(line) == "") {
+				continue
+			}
+			skipping = false
+			keep = append(keep, line)
+		}
+		c17Template = strings.Join(keep, "\n")
+	}
+	return c17Template
 }
 
 func snapFitness(s *SnapGenome) float64 {
@@ -429,6 +493,9 @@ func runC17(c *Ctx, idx int) {
 	if sc.hugePopulation {
 		c.Count("scenarios.population_of_thousands", 1)
 	}
+	if sc.activatorsFromFile {
+		c.Count("scenarios.activation_list_read_from_an_options_file_for_every_run", 1)
+	}
 	if sc.manySpeciesTies {
 		c.Count("scenarios.large_genomes_in_many_species_at_tied_distances", 1)
 		c.Count(fmt.Sprintf("scenarios.large_genomes_in_many_species_at_tied_distances.species_at_end_%s", c17Bucket(first.species)), 1)
@@ -463,6 +530,42 @@ func runC17(c *Ctx, idx int) {
 			dd["copied_options_run"] = ra.hashes
 			dd["fresh_options_run"] = rb.hashes
 			c.Violate("in-process/copied-options", dd, "a run on a by-value copy of the used options object (two settings changed) diverges at epoch %d from the run on options built anew with the same values", d)
+			return
+		}
+	}
+	// the very options object of the first run, edited in place (an application that tunes its rates between two trials), against
+	// options built anew that carry the same values: whatever the library remembered about the object must not show
+	if first.errText == "" && !sc.hugePopulation {
+		saved := *sc.Opts
+		scB, _ := c17Scenario(c.Seed, idx)
+		er := rand.New(rand.NewSource(libSeed ^ 0x5eed))
+		avg := 0.05 + 0.7*er.Float64()
+		thr := sc.Opts.CompatThreshold * (0.6 + 0.8*er.Float64())
+		for _, o := range []*neat.Options{sc.Opts, scB.Opts} {
+			o.MateMultipointProb, o.MateMultipointAvgProb, o.MateSinglepointProb = 0.2, avg, 0.8-avg
+			o.MutateOnlyProb, o.MateOnlyProb = 0.2, 0.3
+			o.MutateAddNodeProb, o.MutateAddLinkProb = o.MutateAddLinkProb, o.MutateAddNodeProb
+			o.CompatThreshold = thr
+			o.WeightMutPower *= 1.5
+			o.SurvivalThresh = 0.3 + 0.4*avg
+		}
+		startB := sc.Start
+		if sc.Ctor == ctorSpawn {
+			startB = scB.Start
+		}
+		scA := *sc
+		scB.Start = startB
+		ra, rb := c17Execute(&scA, libSeed), c17Execute(scB, libSeed)
+		*sc.Opts = saved
+		c.Count("runs.options_object_edited_in_place", 1)
+		if ra.errText != rb.errText {
+			c.Violate("in-process/error", detail(), "a run on the used options object edited in place ended with %q, the run on options built anew with the same values with %q", ra.errText, rb.errText)
+			return
+		}
+		if d := firstDiff(ra.hashes, rb.hashes); d >= 0 {
+			dd := detail()
+			dd["edited_options_run"], dd["fresh_options_run"] = ra.hashes, rb.hashes
+			c.Violate("in-process/edited-options", dd, "a run on the used options object with its rates edited in place diverges at epoch %d from the run on options built anew with the same values", d)
 			return
 		}
 	}
